@@ -169,9 +169,33 @@ class AwaitableItem:
         yield  # pragma: no cover
 
 
+class EqAll:
+    """["E", uid]: an object that claims to be equal to everything (like unittest.mock.ANY or a null object
+    equal to None); equality must be asked of the VALUE, never decided by identity"""
+
+    __slots__ = ("uid", "__weakref__")
+
+    def __init__(self, uid):
+        self.uid = uid
+
+    def __repr__(self):
+        return f"EqAll({self.uid})"
+
+    def __eq__(self, other):
+        return True
+
+    def __ne__(self, other):
+        return False
+
+    def __hash__(self):
+        return 1
+
+
 def mat(v):
     """Materialise a value descriptor into a fresh live object."""
     t = v[0]
+    if t == "E":
+        return EqAll(v[1])
     if t == "W":
         return AwaitableItem(v[1])
     if t == "G":
@@ -215,6 +239,8 @@ def sig(o):
         return ("G", o.what, o.uid)
     if isinstance(o, AwaitableItem):
         return ("W", o.uid)
+    if isinstance(o, EqAll):
+        return ("E", o.uid)
     if o is None:
         return ("n",)
     tp = type(o)
